@@ -130,16 +130,42 @@ def check_out(outpath, main_src, packages, res, case, sigtail):
     return True
 
 
+_BUILDS = [0]
+
+
 def build(d, args):
+    """Builds d/main.lua. Where OUT goes rotates over the builds of a run: next to main.lua, into a sub-directory, into a
+    sibling directory outside the project (each holding decoy files named like common packages), and with main.lua
+    named relative to the working directory - where the packages are looked up never depends on where the cart goes."""
     from pico8 import tool
-    out = os.path.join(d, 'out.p8')
+    import zlib
+    # (a function of the case, not of the order of builds: a replayed case takes the same placement)
+    where = zlib.crc32(open(os.path.join(d, 'main.lua'), 'rb').read() + repr([a.replace(d, '<D>') for a in args]).encode()) % 4
+    outdir = {0: d, 1: os.path.join(d, 'build'), 2: d + '_out', 3: d}[where]
+    os.makedirs(outdir, exist_ok=True)
+    if where in (1, 2):
+        for decoy in ('p.lua', 'q.lua', 'a.lua', 'util.lua', 'mod.lua', 'p1.lua', 'p2.lua', 'lib.lua'):
+            if not os.path.exists(os.path.join(outdir, decoy)):
+                open(os.path.join(outdir, decoy), 'wb').write(b'decoy_next_to_out=1\n')
+    out = os.path.join(outdir, 'out.p8')
     if os.path.exists(out):
         os.unlink(out)
+    cwd0 = os.getcwd()
     try:
-        rcode = tool.main(['build', out, '--lua', os.path.join(d, 'main.lua')] + args)
+        main = os.path.join(d, 'main.lua')
+        if where == 3:
+            os.chdir(d)
+            main = 'main.lua'
+        rcode = tool.main(['build', out, '--lua', main] + args)
         return rcode, None, out
     except BaseException as e:
         return None, e, out
+    finally:
+        os.chdir(cwd0)
+        if where == 2:
+            for f in os.listdir(outdir):
+                if f.endswith('.lua'):
+                    os.unlink(os.path.join(outdir, f))
 
 
 def fresh_dir():
